@@ -44,6 +44,7 @@ RICH_FIELDS = [
     ("hdrs", mp(arr("bytes")), True), ("rows", arr(mp("bytes")), True),
     ("deep", mp(mp(arr("int"))), True), ("cube", arr(arr(arr("int"))), True),
     ("mgrid", mp(arr("bool")), True),
+    ("aaab", arr(arr(arr("bool"))), True), ("maab", mp(arr(arr("bool"))), True),
 ]
 
 RICH_FNS = [
